@@ -7,7 +7,14 @@ use std::os::unix::process::ExitStatusExt;
 use std::path::{Path, PathBuf};
 
 fn build_config(v: &Value) -> BuildConfig {
-    let mut c = BuildConfig::new(string_of(&v["builder"]), PathBuf::from(string_of(&v["app_dir"])));
+    // the app dir either given to the constructor or set afterwards (BuildConfig::app_dir)
+    let mut c = if v["app_dir_via_setter"] == true {
+        let mut c = BuildConfig::new(string_of(&v["builder"]), PathBuf::from("decoy/never/used"));
+        c.app_dir(PathBuf::from(string_of(&v["app_dir"])));
+        c
+    } else {
+        BuildConfig::new(string_of(&v["builder"]), PathBuf::from(string_of(&v["app_dir"])))
+    };
     c.buildpacks(v["buildpacks"].as_array().unwrap().iter().map(|b| BuildpackReference::Other(string_of(b))).collect::<Vec<_>>());
     for kv in v["env"].as_array().unwrap() {
         c.env(string_of(&kv[0]), string_of(&kv[1]));
@@ -185,10 +192,13 @@ pub fn run(case: &Value) -> Value {
     std::fs::write(root.join("state").join("plan.json"), serde_json::to_string(&json!({"fail": case["fail"]})).unwrap()).unwrap();
     std::fs::write(root.join("case.json"), serde_json::to_string(&case).unwrap()).unwrap();
 
-    let out = std::process::Command::new(std::env::current_exe().unwrap())
-        .arg("lt_child")
-        .arg(root.join("case.json"))
-        .env_clear()
+    let mut child = std::process::Command::new(std::env::current_exe().unwrap());
+    child.arg("lt_child").arg(root.join("case.json")).env_clear();
+    // coverage measurement only (tools/coverage.sh): let the instrumented child write its profile
+    if let Ok(p) = std::env::var("LLVM_PROFILE_FILE") {
+        child.env("LLVM_PROFILE_FILE", p);
+    }
+    let out = child
         .env("PATH", root.join("bin"))
         .env("TMPDIR", root.join("tmp"))
         .env("CARGO_MANIFEST_DIR", root.join("manifest"))
